@@ -312,6 +312,26 @@ func scenC05(r *Run) {
 		w.FaultPlan[fh] = f
 		r.nontrivial = true
 	}
+	// compound schedules (drawn after the enumerable prefix): the hops in front of the faulted one
+	// may each be slow but successful, so that the time they took adds up to a timeout or more
+	// before the fault is met; and the network may hold back what the client writes once a few
+	// bytes are outstanding, so that a peer that stops reading blocks the writer
+	slowBefore := 0
+	if fh > 0 && t.Chance(1, 3) {
+		for h := 0; h < fh; h++ {
+			if _, taken := w.FaultPlan[h]; !taken && t.Chance(3, 4) {
+				w.FaultPlan[h] = Fault{Kind: FSlow, Delta: []time.Duration{timeout / 2, timeout * 9 / 10, timeout * 99 / 100}[t.Draw(3)]}
+				slowBefore++
+			}
+		}
+		if slowBefore > 0 {
+			r.S.Probe("c05_slow_hops_before_fault")
+		}
+	}
+	if t.Chance(1, 3) {
+		w.SendBuf = []int{16, 64, 200, 1024}[t.Draw(4)]
+		r.S.Probe("c05_bounded_send_buffer")
+	}
 	// a slow network on top of the injected fault: up to 0.3 timeouts per delivery
 	r.S.LatTable = []time.Duration{0, 0, 0, time.Millisecond, 7 * time.Millisecond, 30 * time.Millisecond, timeout / 20, timeout / 8}
 	r.Describe("scenario", "c05")
@@ -321,6 +341,8 @@ func scenC05(r *Run) {
 	r.Describe("style", style)
 	r.Describe("fault_hop", fh)
 	r.Describe("fault", f.String())
+	r.Describe("slow_hops_before_fault", slowBefore)
+	r.Describe("send_buffer", w.SendBuf)
 	r.Describe("tls", map[bool]string{false: "stub", true: "real"}[r.Real])
 	r.Describe("timeout", timeout.String())
 
@@ -356,6 +378,9 @@ func scenC05(r *Run) {
 	if f.Kind == FSlow {
 		mayEither = false // a slow but complete answer within the timeout must still succeed
 	}
+	if slowBefore > 0 && !mustFail {
+		mayEither = true // the slow hops may or may not have fitted into their own timeouts
+	}
 
 	var gotDoc map[string]any
 	var gotSrc *url.URL
@@ -375,13 +400,18 @@ func scenC05(r *Run) {
 		}
 	})
 	bound := 3*timeout*time.Duration(hops+1) + time.Second
+	if w.SendBuf > 0 {
+		// closing a TLS connection whose peer no longer reads waits up to five seconds for the
+		// close-notify alert to be written (crypto/tls); only a bounded send buffer makes that visible
+		bound += 5 * time.Second
+	}
 	end := r.Drive(func() bool { return task.Done }, bound+2*timeout+time.Second, 20000)
 	if !task.Done {
 		what := "still blocked"
 		if end == EndStepCap {
 			what = "still running after 20000 events"
 		}
-		r.Violate("C05", "M-time", "hang/"+stage, fmt.Sprintf("fetch of %s (%s, fault %s at hop %d/%d) %s at virtual time %s; bound 3*timeout*(hops+1)+1s = %s; pending: %v",
+		r.Violate("C05", "M-time", "hang/"+stage, fmt.Sprintf("fetch of %s (%s, fault %s at hop %d/%d) %s at virtual time %s; bound 3*timeout*(hops+1)+1s (+5s close-notify grace with a bounded send buffer) = %s; pending: %v",
 			ch.start, c05Corpus[ci].name, f, fh, hops, what, r.S.Now(), bound, r.S.PendingKeys()))
 		return
 	}
